@@ -114,7 +114,8 @@ def handle (args : List Sexp) : String :=
    runc FUEL PROG → c=<normal|panic|stuck|fuel>:<v1,v2,…> s=<normal|panic|stuck|fuel>:<v1,v2,…> ws=<true|false> dom=<true|false> mech=<cdlbka bits>
      c = yaegi's frame mechanism (`Clos.runM` with the mechanism the extractor recognised in the source),
      s = Go's lexical-scoping semantics (`Clos.runS`), ws = the program is well scoped,
-     dom = no range bound is a bare variable (the domain of the theorem, F51)
+     dom = the program is in the domain of the theorem (`inDom`: no bare-variable range bound, F51; no loop body
+           redeclaring the loop variable's name at its top level, F52)
    XEXPR = (lit n) | (var x) | (bin op a b) | (neg a) | (cpl a)          -- x a NAME
    XCOND = (cmp op a b) | (not a) | (land a b) | (lor a b)
    PROG  = skip | brk | cont | (seq a b) | (set D x e) | (setfn D x (p…) body res) | (setcall D x f e…)
